@@ -4,6 +4,7 @@ import (
 	"encoding/json"
 	"math/rand"
 	"strings"
+	"sync"
 
 	"github.com/TimothyStiles/poly/seqhash"
 )
@@ -101,13 +102,27 @@ func c12Record(tier string, seed int64, emit func(interface{})) {
 			return string(b)
 		}
 	}
-	call := func(kind string, in string) {
-		out := seqhash.RotateSequence(in)
+	report := func(kind string, in, out string) {
 		idx := strings.Index(in+in, out)
 		if idx < 0 {
 			idx = 0 // the spec then rejects: o is not the rotation of s at idx
 		}
 		emit(map[string]interface{}{"k": kind, "g": g, "s": in, "o": out, "idx": idx})
+	}
+	call := func(kind string, in string) { report(kind, in, seqhash.RotateSequence(in)) }
+	// callAll: the rotations of one group canonicalised at the same time (the function is pure: overlapping calls
+	// must not disturb one another), reported in order
+	callAll := func(kind string, ins []string) {
+		outs := make([]string, len(ins))
+		var wg sync.WaitGroup
+		for i := range ins {
+			wg.Add(1)
+			go func(i int) { defer wg.Done(); outs[i] = seqhash.RotateSequence(ins[i]) }(i)
+		}
+		wg.Wait()
+		for i := range ins {
+			report(kind, ins[i], outs[i])
+		}
 	}
 	call("full", "")
 	for i := 0; i < nFull; i++ {
@@ -159,8 +174,16 @@ func c12Record(tier string, seed int64, emit func(interface{})) {
 			b[pos] = 'a' + 'b' - b[pos]
 		}
 		s := string(b)
+		var ins []string
 		for _, k := range []int{0, len(s) / 2, (pos + 1) % len(s), (pos + len(s) - 70000) % len(s), rng.Intn(len(s))} {
-			call("big", s[k:]+s[:k])
+			ins = append(ins, s[k:]+s[:k])
+		}
+		if i%2 == 0 {
+			callAll("big", ins)
+		} else {
+			for _, in := range ins {
+				call("big", in)
+			}
 		}
 	}
 }
